@@ -104,5 +104,12 @@ mod tests;
 #[cfg(target_arch = "wasm32")]
 mod wasm;
 
+// Verification hook: type-checks the wasm option layer on the host so that
+// static analysis can see it. Off unless built with `--cfg fast_qr_verif`.
+#[cfg(all(fast_qr_verif, not(target_arch = "wasm32")))]
+#[path = "wasm.rs"]
+#[allow(missing_docs, dead_code)]
+pub mod wasm_host;
+
 #[cfg(target_arch = "wasm32")]
 pub use wasm::*;
